@@ -5,18 +5,23 @@ SOURCE_COMMITS = [
     '9df51cc fix: capture-only generation finalises successors like full generation',
     '2e6d02f fix: a double pawn step answering a double step keeps the Zobrist key consistent',
     'dd33adc fix: castling squares are tested against the enemy king as well',
+    '4550c06 fix: parsing a square never panics',
+    '02985c8 fix: FEN move counters beyond 255 are accepted',
 ]
 ENGINES = [
-    {'name': 'verus-contracts', 'path': 'check', 'serves_properties': ['C01', 'C02', 'C05', 'C06', 'C10', 'C13', 'C14'],
+    {'name': 'verus-contracts', 'path': 'check', 'serves_properties': ['C01', 'C02', 'C04', 'C05', 'C06', 'C10', 'C13', 'C14'],
      'kind_free_text': 'Verus 0.2026.09.13: requires/ensures/invariant/decreases inserted into functions copied byte-for-byte from /repo/src on every run; one verifier process per unit'},
 ]
+ENGINES.append({'name': 'kani-contracts', 'path': 'vlib/kani.py', 'serves_properties': ['C04', 'C09', 'C15'],
+                'kind_free_text': 'Kani 0.68 / CBMC 6.11: function contract (proof_for_contract) and loop-free or input-length-bounded harnesses over full symbolic domains, on a scratch crate = /repo/src + appended cfg(kani) modules'})
+ENGINES.append({'name': 'native-bounded', 'path': 'replay/hunter.rs', 'serves_properties': ['C04', 'C05', 'C10', 'C15'],
+                'kind_free_text': 'BOUNDED stand-in (never counted as proved) for string code neither verifier reaches (from_fen, play_out_position): seeded native runs of the real functions against a rules oracle; also the counterexample hunter / replay tool for every property'})
 NOTES = ('Technique family: contract-based deductive verification of the real code. exit 0 = all obligations discharged; '
          'exit 1 = VIOLATION line (a previously discharged obligation now fails; replay file carries the obligation, verifier output and, when found, a failing input); '
          'exit 2 = UNDECIDED (lost anchor / front-end rejection / persistent rlimit), never an alarm. See DESIGN.md.')
 
 PENDING = 'check not yet built in this commit (planned, see DESIGN.md section 4); listed here until its check is registered'
 NOT_APPLICABLE = {
-    'C04': PENDING, 'C09': PENDING, 'C15': PENDING,
     'C03': 'two threads, an mpsc channel, a polling loop on the wall clock and stdout: no function-level contract states "exactly one bestmove", Kani has no threads, and get_best_move/alpha_beta_search are outside the Verus subset (closures, sort_unstable_by_key, iterator adaptors); the sequential ingredients are covered by C01/C02/C04',
     'C07': 'needs a contract on the recursive search with ghost clock state; the search body is outside the Verus subset and CBMC cannot unroll it; enumerating expiry points is fault injection, a different family',
     'C08': 'liveness/latency of a two-thread polling loop: no contract over one call expresses "eventually prints within the slice"',
@@ -27,6 +32,27 @@ NOT_APPLICABLE = {
     'C18': 'formatted search output under the clock (send_search_info inside the search): outside both verifiers',
 }
 CHECKS = {
+    'C04': {
+        'text': 'Unbounded proof for one `position ... moves` step: the real uci::make_move, under legal_position + key_ok + "the text names a legal move", leaves exactly pos_after / castle_pos_after -- the SAME spec functions the generator successors satisfy (C02) -- and key_ok. Hence replaying a move text equals following the engine successor (transitivity through one spec). The &str operations are abstracted by uninterpreted results tied by text_facts, which a Kani harness discharges on the REAL str/Point operations for all 20480 strings of the UCI move grammar (complete finite domain).',
+        'design_ref': 'DESIGN.md 4/C04, 11',
+        'note': 'Rewrites R3/R4 replace three text expressions by external_body helpers whose bodies are the original expressions (link Verus<->Kani by construction, not by a verifier). play_out_position (FEN re-assembly, moves scan, table loop) is string code outside both verifiers: BOUNDED native stand-in only (seeded random games against the rules oracle), labelled bounded, not counted. Induction over the move list is on paper.',
+        'technique': 'Verus contract on the real make_move against the shared pos_after spec + Kani harnesses for the text operations',
+        'engine': 'verus-contracts',
+    },
+    'C09': {
+        'text': 'Proof (Kani function contract on the real GameTime::calculate_time_slice, loop-free, full i128 x Option<u32> domain, both colours, IEEE-754 bit-precise): with more than the 100 ms margin the slice never exceeds the MOVER clock; with no usable clock and no increment it is zero; a cover harness shows all three regimes reachable. The sharp "80% of (clock-margin)/moves-to-go" clause and side-independence are BOUNDED (thorough tier: i16 clock, movestogo absent or 1..64).',
+        'design_ref': 'DESIGN.md 4/C09',
+        'note': 'Trusted: Kani/CBMC/CaDiCaL. Precondition movestogo >= 1. Not decided: parse_go_command routing, actual wall-clock delay.',
+        'technique': 'Kani function contract (proof_for_contract) over the full input domain',
+        'engine': 'kani-contracts',
+    },
+    'C15': {
+        'text': 'Proof for the en-passant-square parser only: Point::from_str on every valid-UTF-8 byte string of length <= 4 never panics, returns Ok exactly for [a-h][1-8] and then the right square (Kani, loops bounded by input length with unwinding assertions). Everything else in from_fen is outside both verifiers (measured, DESIGN App. B) and is covered only by a BOUNDED native stand-in: seeded mutated FEN texts never panic, oracle-generated FENs of legal positions (counters up to 65535) load to exactly that position and from-scratch key.',
+        'design_ref': 'DESIGN.md 4/C15',
+        'note': 'The from_fen clauses are labelled bounded and not counted as proved; CLI behaviour not covered.',
+        'technique': 'Kani harness over all short strings for Point::from_str; bounded native stand-in for from_fen',
+        'engine': 'kani-contracts',
+    },
     'C01': {
         'text': 'Unbounded proof of the statement itself on the real generate_moves: for every legal_position (wf mailbox, one king per side with correct cache, side not to move not in check, no pawns on back ranks, rights only with king and rook at home, en-passant target only behind a just-double-stepped pawn) and AllMoves, the returned vector is (i) sound: every element names a legal_move, (ii) complete: every legal_move occurs, (iii) duplicate-free. legal_move is a rules-level spec (per-kind movement geometry, own king not attacked after the move, FIDE castling conditions incl. squares attacked by the enemy king, en passant only onto the recorded target). Every function on the call chain is under contract: the six piece generators and get_moves (exact target sets), is_check_cords/is_check, can_castle x4, generate_moves_for_piece, promote_pawn, pawn_moves_en_passant, generate_castling_moves, generate_moves.',
         'design_ref': 'DESIGN.md 4/C01',
